@@ -80,6 +80,9 @@ def check_traversals(case, ctx):
         if src_pos and non_pos and max(src_pos) > min(non_pos):
             ctx.violation('topological-order', f'a non-source node is yielded before all inputs/state elements; {txt}', case)
             return
+        if [n.index for n in c.topological_order()] != [n.index for n in seq]:
+            ctx.violation('topological-order', f'a second traversal of the same circuit yields a different sequence; {txt}', case)
+            return
         # ---- with level -------------------------------------------------------------------------------
         seql = list(c.topological_order_with_level())
         if [n.index for n, _ in seql] != [n.index for n in seq]:
